@@ -24,8 +24,8 @@ RULE = ("structure stage: whole reference proteins with threaded clusters (acid-
         "or an exception-value side-chain determinant (classes absent from most reference files); distinct by hash.")
 ASSUMPTIONS = [
     "default options and parameter files that change desolvationAllowance / remove_penalised_group / "
-    "common_charge_centre; shared_determinants is not varied: that option copies determinants between covalently "
-    "coupled groups regardless of their charge, so the sign rules do not apply to it (the coupled-residue display mode re-orders interactions on "
+    "common_charge_centre / shared_determinants; with shared_determinants only the magnitude bounds are asserted: "
+    "that option copies determinants between covalently coupled groups regardless of their charge (the coupled-residue display mode re-orders interactions on "
     "purpose and is not included)",
     "side-chain bound: 2 x sidechain_interaction, except CYS-CYS pairs, which may take the configured CYS_CYS "
     "exception value; the other configured exception values (1.60) are below the bound anyway",
@@ -73,6 +73,7 @@ def check_case(case):
     eps = 1e-9
     v = []
     classes = set()
+    bounds_only = bool((case.get("flags") or {}).get("shared_determinants"))
     for c in rec["conf_names"]:
         groups = rec["confs"][c]["groups"]
         by_key = {}
@@ -143,7 +144,10 @@ def check_case(case):
                         bad("coulomb-sign", "charge %+d, like-charged %s gives %r" % (q, lab, val))
                 if partner["hetatm"] or g["hetatm"]:
                     classes.add("ligand-coulomb:" + (partner["type"] if partner["hetatm"] else g["type"]))
-    twins = bool(common.twin_atoms(pdbio.parse(text)))
+    if bounds_only:
+        # determinant sharing copies determinants between covalently coupled groups whatever their charge: only the
+        # magnitude bounds apply
+        v = [x for x in v if x["clause"].endswith("-bound") or x["clause"] == "buried-fraction"]
     return v[:6], {"labels": sorted(classes), "nontrivial": bool(classes)}
 
 
@@ -211,9 +215,8 @@ def run_shard(ctx):
         allowance = draw(st.sampled_from([0, 0, 0, 0.1, 0.4]))
         flags = {}
         if not allowance and draw(st.integers(0, 3)) == 0:
-            # determinant sharing is NOT varied: it copies a determinant to every covalently coupled group whatever
-            # its charge (by design of that option), so the sign rules of the statement do not apply to it
-            flags = {"shared_determinants": 0, "remove_penalised_group": draw(st.integers(0, 1)),
+            # with determinant sharing only the magnitude bounds are asserted (see check_case)
+            flags = {"shared_determinants": draw(st.integers(0, 1)), "remove_penalised_group": draw(st.integers(0, 1)),
                      "common_charge_centre": draw(st.integers(0, 1))}
         return s, allowance, flags
 
@@ -231,8 +234,9 @@ def run_shard(ctx):
 
     # the reference files with ligands / coupled systems under the sharing flags
     combos = [(n, f) for n in ("4DFR", "1HPX", "1FTJ-Chain-A", "3SGB") for f in (
-        {}, {"shared_determinants": 0, "remove_penalised_group": 0, "common_charge_centre": 0},
-        {"shared_determinants": 0, "remove_penalised_group": 1, "common_charge_centre": 1})]
+        {}, {"shared_determinants": 1, "remove_penalised_group": 0, "common_charge_centre": 0},
+        {"shared_determinants": 1, "remove_penalised_group": 1, "common_charge_centre": 1},
+        {"shared_determinants": 0, "remove_penalised_group": 0, "common_charge_centre": 1})]
     mine = [combos[i] for i in ctx.my_slice(len(combos))]
 
     def corpus_body(t):
